@@ -1,3 +1,5 @@
+#[cfg(mos_verif_threads)]
+use mos_simrt::std_shim as std;
 use crate::codegen::{ProgramCounter, Symbol, SymbolData, SymbolIndex, SymbolTable};
 use crate::parser::code_map::Span;
 use crate::parser::{
